@@ -213,42 +213,59 @@ func healExempt(c *Cluster) string {
 	return ""
 }
 
-// staleQuorumStuck recognises known finding F-M: there is no leader, and no
-// running node that is a voter in the configuration it has applied has applied
-// the committed configuration - every node that could stand for election still
-// depends on the voters of an older configuration, of which some were removed
-// by the committed change and stopped, or were demoted by it (they know the
-// commit, have the longer log and refuse their vote, and cannot lead
-// themselves), before the commit index reached the survivors.
+// staleQuorumStuck recognises known finding F-M. There is no leader; no
+// running node can win an election, by construction: for every running node v
+// that is a voter in the configuration it has applied, the running nodes whose
+// log is not more up to date than v's (the only ones that may grant v their
+// vote) do not contain a majority of every voter set of *v's applied
+// configuration*; and at least one running node has not applied the committed
+// configuration. That is the state after a membership change whose commit
+// never reached the survivors: the members that left were stopped, the demoted
+// ones cannot lead, the nodes still in the old (joint) configuration need votes
+// of members that are gone, and a node that knows the new configuration is
+// refused by a survivor with a longer log. No implementation of the election
+// could elect anybody in this state.
 func staleQuorumStuck(c *Cluster) string {
 	if healLeader(c) != 0 {
 		return ""
 	}
 	want := c.chk.confAt(c.chk.gMax())
-	voters := 0
-	desc := ""
+	stale := ""
+	candidates := 0
 	for _, id := range c.ids {
 		n := c.nodes[id]
 		if !n.up {
 			continue
 		}
 		st := &n.st
+		have := refConfFromLists(st.Voters, st.VotersOutgoing, st.Learners, st.LearnersNext, st.AutoLeave)
+		if !have.Equal(want) && stale == "" && (len(st.Voters) > 0 || len(st.VotersOutgoing) > 0) {
+			stale = fmt.Sprintf("node %d still has %s applied (commit %d), the committed configuration is %s", id, have, st.Committed, want)
+		}
 		if !inSet(st.Voters, id) && !inSet(st.VotersOutgoing, id) {
 			continue
 		}
-		voters++
-		have := refConfFromLists(st.Voters, st.VotersOutgoing, st.Learners, st.LearnersNext, st.AutoLeave)
-		if have.Equal(want) {
-			return "" // a node that can stand for election knows the committed configuration
+		candidates++
+		ct, ci := c.chk.nc[id].lastID()
+		grants := func(u uint64) bool {
+			if u == id {
+				return true
+			}
+			m := c.nodes[u]
+			if m == nil || !m.up {
+				return false
+			}
+			ut, ui := c.chk.nc[u].lastID()
+			return ct > ut || (ct == ut && ci >= ui)
 		}
-		if desc == "" {
-			desc = fmt.Sprintf("node %d still has %s applied (commit %d), the committed configuration is %s", id, have, st.Committed, want)
+		if jointMaj(st.Voters, st.VotersOutgoing, grants) {
+			return "" // this node can be elected by the running nodes
 		}
 	}
-	if voters == 0 {
+	if candidates == 0 || stale == "" {
 		return ""
 	}
-	return "no running node that can stand for election has applied the committed configuration: " + desc + " (the members that left or were demoted knew the commit; the survivors depend on their votes and cannot get them)"
+	return "no running node can win an election (for each, the running nodes that may grant it their vote do not form the quorum of the configuration it has applied) and the committed configuration has not reached every survivor: " + stale
 }
 
 func healLeader(c *Cluster) uint64 {
